@@ -17,7 +17,19 @@ inputs whose breakpoints lie on the grid (one-sample ramps = steps, ramps, trian
     ẋ = A x + B u of the implementation's own matrices (state k in dictionary order);
   * agreement of `_x` with an independent `scipy.linalg.expm` variation-of-constants
     evaluation for piecewise-linear inputs (support for the `lsim` assumption);
-  * for constant final inputs: settling to `DCSolution`.
+  * for constant final inputs: settling to `DCSolution`;
+  * time windows t0 = m·h (zero, small, large, now and then negative — open finding), typed time vectors (int64
+    np.arange grids, float32), `_u` and the sources' own reported voltages / currents against the supplied
+    waveforms at the REQUESTED times, shift invariance;
+  * a non-uniform grid must raise or give the exact response at the reported times (matrix-exponential
+    reference with per-step exponentials);
+  * periodic inputs settle to the multi-frequency steady state of C09 (`periodic_case`): ac / periodic sin, tri,
+    rect voltage sources, last simulated period against `TimeDomainSolution`;
+  * source kinds: ideal ac / periodic voltage sources and ac current sources with phases in all quadrants.
+Note: ẋ = A x + B u is formed from the implementation's own A, B, so the clauses "capacitor i = C·ẋ" and
+"resistor v = R·i" restate how the rows are built (tautologies); the independent clauses — KCL at every node, KVL,
+state identities v_C = x_k / i_L = x_k, v_L = L·ẋ_k, source laws, the expm reference, settling to DCSolution, the
+steady state against TimeDomainSolution — determine everything.
 """
 from __future__ import annotations
 import numpy as np
@@ -52,7 +64,8 @@ ASSUMPTIONS = [
 EXTRA_CANON = {}      # set by the value-variation stream: same ids, different values, same process
 
 def canon(desc, symptom, **kw):
-    return dict(op='transient', symptom=symptom, **gs.facts(desc), **({'si_units': True} if 'si' in desc else {}), **EXTRA_CANON, **kw)
+    return dict(op='transient', symptom=symptom, **gs.facts(desc), **({'si_units': True} if 'si' in desc else {}),
+                **({'grid': desc['grid']} if 'grid' in desc else {}), **EXTRA_CANON, **kw)
 
 def make_inputs(rng, desc, sources, n):
     """piecewise-linear profiles with breakpoints on the grid, zero at the first sample, constant
@@ -60,7 +73,7 @@ def make_inputs(rng, desc, sources, n):
     prof = {}
     k_const = n // 3
     for s in sources:
-        final = next((c['val'] for c in desc['comps'] if c['id'] == s), 1.0)
+        final = next((gs.dc_value(c) for c in desc['comps'] if c['id'] == s), 1.0)
         p = np.zeros(n)
         style = rng.choice(['step', 'ramp', 'triangle', 'late_step'])
         k0 = rng.randint(1, max(1, k_const // 4))
@@ -103,6 +116,19 @@ def expm_response(A, B, U, h):
         X[:, k + 1] = Phi @ X[:, k] + G1 @ U[:, k] + G2 @ (U[:, k + 1] - U[:, k])
     return X
 
+def expm_response_nonuniform(A, B, U, t):
+    """exact samples of ẋ = A x + B u, x(t[0]) = 0, for u linear between the (arbitrarily spaced) samples"""
+    from scipy.linalg import expm
+    ns, nu = B.shape
+    X = np.zeros((ns, len(t)))
+    for k in range(len(t) - 1):
+        h = float(t[k + 1] - t[k])
+        M = np.zeros((ns + 2 * nu, ns + 2 * nu))
+        M[:ns, :ns] = A * h; M[:ns, ns:ns + nu] = B * h; M[ns:ns + nu, ns + nu:] = np.eye(nu)
+        E = expm(M)
+        X[:, k + 1] = E[:ns, :ns] @ X[:, k] + E[:ns, ns:ns + nu] @ U[:, k] + E[:ns, ns + nu:] @ (U[:, k + 1] - U[:, k])
+    return X
+
 def check_case(ctx, out, desc, origin='random'):
     from CircuitCalculator.Circuit.solution import TransientSolution, DCSolution
     drv = ctx.driver
@@ -141,12 +167,31 @@ def check_case(ctx, out, desc, origin='random'):
             Aref = np.array([[core.cfloat(x).real for x in r] for r in m0['A']]).reshape(A.shape)
     tin0, settle = grid_for(Aref)
     n = len(tin0); h = tin0[1] - tin0[0]
-    # time window: the requested grid starts at t0 = m·h — zero, small, large (exact in binary64); negative
-    # start times are outside the domain (scipy.signal.lsim refuses them: 'Initial time must be nonnegative')
-    t0 = h * rng.choice([0, 0, 5, 37, 1000, 2 ** 16, 1, 2 ** 20])
-    tin = t0 + tin0
+    # time window: the requested grid starts at t0 = m·h — zero, small, large (exact in binary64), now and then
+    # negative ("all uniform time grids"; scipy.signal.lsim refuses a negative initial time: open finding)
+    grid = desc.get('grid')
+    amp = 1.0
+    if grid == 'int64':
+        # integer-typed time vector (np.arange(0, n)): needs h = 1, i.e. the circuit's time scale × 1/h
+        if h != 1.0:
+            if desc.get('_rescaled'):
+                out.skip('integer_grid_not_reached'); return
+            d2 = dict(desc, comps=[dict(c, val=c['val'] / h) if c['kind'] in ('C', 'L') else dict(c) for c in comps], _rescaled=True)
+            return check_case(ctx, out, d2, origin)
+        t0 = float(rng.choice([0, 0, 5, 37, 1000]))
+        tin0 = np.arange(n, dtype=np.int64); tin = (int(t0) + tin0).astype(np.int64); amp = 0.8125
+    elif grid == 'float32':
+        t0 = h * rng.choice([0, 5, 37])
+        tin = (t0 + tin0).astype(np.float32); tin0 = tin0.astype(np.float32); amp = 0.8125
+        if not np.array_equal(tin.astype(float), t0 + tin0.astype(float)):
+            out.skip('float32_grid_not_exact'); return
+    else:
+        t0 = h * (rng.choice([-8, -2 ** 12]) if rng.random() < 0.04 else rng.choice([0, 0, 5, 37, 1000, 2 ** 16, 1, 2 ** 20]))
+        tin = t0 + tin0
+    if grid: out.count('grid:' + grid)
     out.count('window:' + ('t0=0' if t0 == 0 else 't0>0' if t0 > 0 else 't0<0'))
     prof, k_const = make_inputs(rng, desc, src_ids, n)
+    prof = {k: amp * v for k, v in prof.items()}      # non-integer sample values on the typed grids
     given = list(src_ids); rng.shuffle(given)
     # the inputs are genuine functions of time: piecewise linear with breakpoints on the REQUESTED grid
     mk_inputs = lambda grid: {s: (lambda p: (lambda t: np.interp(t, grid, p)))(prof[s]) for s in given}
@@ -161,7 +206,8 @@ def check_case(ctx, out, desc, origin='random'):
         cur = {i: np.asarray(sol.get_current(i)[1]) for i in ids}
         tout = np.asarray(sol.t)
     except Exception as e:
-        out.spec_fail(canon(desc, 'raises', exc=gs.gen_tag(e)), f'transient simulation raises {type(e).__name__}: {e}', inp,
+        out.spec_fail(canon(desc, 'raises', exc=gs.gen_tag(e), **({'negative_start_time': True} if t0 < 0 else {})),
+                      f'transient simulation raises {type(e).__name__}: {e}' + (f' (uniform grid starting at t0 = {t0})' if t0 < 0 else ''), inp,
                       impl=dict(exception=repr(e)), desc=desc); return
     for what, q, arg in (('potential', sol.get_potential, c10.UNKNOWN_NODE), ('voltage', sol.get_voltage, c10.UNKNOWN_ID),
                          ('current', sol.get_current, c10.UNKNOWN_ID)):
@@ -275,14 +321,36 @@ def check_case(ctx, out, desc, origin='random'):
             out.count('shift_invariance_checked')
         except Exception as e:
             return fail('raises', f'simulation on the zero-based window raises {type(e).__name__}: {e}')
+    # a NON-uniform grid is outside the quantifier, but a result returned for one must still be the exact response
+    # at the reported times (inputs linear between the given samples) — or the call must raise
+    # (ordinary time scales only: scipy.signal.lsim tests uniformity with numpy.allclose and its ABSOLUTE tolerance
+    #  1e-8, so on nanosecond grids every spacing looks uniform to it — observed on the unchanged tree, see notes)
+    if A.size and grid is None and not si_mode and t0 >= 0 and rng.random() < 0.35:
+        kk = np.arange(40)
+        tnu = rng.choice([h * (1.15 ** kk - 1.0), np.concatenate([h / 4 * np.arange(20), h / 4 * 20 + 4 * h * np.arange(20)])])
+        wave = lambda p: (lambda t: np.interp(t, tin0, p))
+        try:
+            solnu = TransientSolution(im.circuit, tin=tnu, input={s: wave(prof[s]) for s in given})
+            Xnu, tnu_out = np.asarray(solnu._x, dtype=float), np.asarray(solnu.t, dtype=float)
+        except Exception:
+            solnu = None
+            out.count('nonuniform_grid_rejected')
+        if solnu is not None:
+            Unu = np.array([np.interp(tnu, tin0, prof[s]) for s in sources])
+            Xref = expm_response_nonuniform(A, B, Unu, tnu)
+            if tnu_out.shape != tnu.shape or not np.array_equal(tnu_out, tnu) or Xnu.shape != Xref.shape or np.any(np.abs(Xnu - Xref) > tolx):
+                return fail('nonuniform_grid', 'a non-uniform time grid is accepted, but the returned samples are not the response '
+                            f'at the reported times (max deviation {float(np.max(np.abs(Xnu - Xref))) if Xnu.shape == Xref.shape else "shape"}; '
+                            f'steps from {float(np.min(np.diff(tnu))):.4g} to {float(np.max(np.diff(tnu))):.4g})', grid_times=tnu.tolist())
+            out.count('nonuniform_grid_exact')
     # settling to the DC solution for constant inputs
     if settle and not f['zero_valued_current_source']:
         dc = DCSolution(im.circuit)
         for key, series, ref in ([(('pot', l), pot[l], dc.get_potential(l)) for l in labels] +
                                  [(('v', i), vol[i], dc.get_voltage(i)) for i in ids] +
                                  [(('i', i), cur[i], dc.get_current(i)) for i in ids]):
-            if abs(series[-1] - ref) > 100 * tk('i' if key[0] == 'i' else 'v'):
-                return fail('not_settled', f'{key}: final value {series[-1]} but DCSolution reports {ref}')
+            if abs(series[-1] - amp * ref) > 100 * tk('i' if key[0] == 'i' else 'v'):
+                return fail('not_settled', f'{key}: final value {series[-1]} but DCSolution reports {amp * ref}')
         out.count('settled_to_dc')
     else:
         out.skip('settle_not_checked')
@@ -326,6 +394,86 @@ def check_case(ctx, out, desc, origin='random'):
                     out.traces_validated += 1
     out.sample(inp)
 
+def periodic_case(ctx, out, desc, origin='periodic'):
+    """periodic inputs settle to the multi-frequency steady state of C09: one voltage source becomes an ac
+    source (frequency w1) or a periodic sin / tri / rect source (fundamental w0, harmonics up to 5·w0), the other
+    sources stay dc; the transient simulation is driven with the source waveforms TimeDomainSolution itself
+    assigns to the sources (its truncated Fourier series) for the decay time plus one period, and its last period is
+    compared with TimeDomainSolution for every potential, voltage and current — within the first-order-hold error
+    of sampling the harmonics, (w_max·h)²/8, and the decayed transient e^{-25}"""
+    from CircuitCalculator.Circuit.solution import TransientSolution, TimeDomainSolution
+    drv = ctx.driver
+    rng = ctx.rng('periodic', str(gs.pretty(desc)))
+    vs = [c for c in desc['comps'] if c['kind'] == 'V' and 'src' not in c]
+    if not vs or gs.facts(desc)['zero_valued_current_source']:
+        return
+    out.evaluations += 1
+    ok, why = gs.nondegenerate(drv, desc)
+    if not ok:
+        out.count('degenerate:' + why); return
+    try:
+        A0 = np.asarray(gs.impl_model(desc).ssm.A, dtype=float)
+    except Exception:
+        return                                        # reported by check_case
+    lam = np.linalg.eigvals(A0) if A0.size else np.array([-1.0])
+    big, slow = float(max(abs(lam))), float(min(abs(lam.real)))
+    if slow <= 0 or max([c10.cond_of(p) for p in gs.impl_model(desc).inverses] + [1.0]) > 1e6:
+        out.skip('periodic_not_damped'); return
+    w0 = float(gs.dyadic_near(float(np.median(abs(lam)))))
+    pick = rng.choice(vs)['id']
+    kind = rng.choice(['ac', 'sin', 'tri', 'rect'])
+    phi = rng.choice(gs.PHASES)
+    comps = []
+    for c in desc['comps']:
+        c = dict(c)
+        if c['id'] == pick:
+            c['src'] = dict(type='ac', w=w0, phi=phi) if kind == 'ac' else dict(type='periodic', wavetype=kind, w=w0, phi=phi)
+        comps.append(c)
+    d = dict(desc, comps=comps)
+    inp = gs.pretty(d)
+    w_max = w0 if kind in ('ac', 'sin') else 5.5 * w0
+    h = 2.0 ** np.floor(np.log2(min(0.5 / big, 0.02 / w_max)))
+    period = 2 * np.pi / w0
+    n = int(np.ceil((25.0 / slow + period) / h)) + 2
+    if n > 60000:
+        out.skip('periodic_too_stiff'); return
+    out.nontrivial(('periodic', kind) + gs.shape(d))
+    tin = np.arange(n) * h
+    pcanon = lambda symptom, **kw: dict(op='transient', symptom=symptom, periodic=kind, **gs.facts(d), **kw)
+    try:
+        circuit = gs.build_circuit(d)
+        td = TimeDomainSolution(circuit, w_max=w_max)
+        ws = np.asarray(td.w, dtype=float)
+        def waveform(cid, is_v):
+            ph = np.array([complex(s_.get_voltage(cid) if is_v else s_.get_current(cid)) for s_ in td._solutions])
+            return lambda t: np.sum(np.abs(ph)[:, None] * np.cos(ws[:, None] * np.asarray(t)[None, :] + np.angle(ph)[:, None]), axis=0)
+        inputs = {c['id']: waveform(c['id'], c['kind'] == 'V') for c in d['comps'] if c['kind'] in ('V', 'I')}
+        sol = TransientSolution(circuit, tin=tin, input=inputs)
+        last = tin >= tin[-1] - period
+        tl = tin[last]
+        labels, ids = gs.labels_of(d), [c['id'] for c in d['comps']]
+        got = {('pot', l): np.asarray(sol.get_potential(l)[1])[last] for l in labels}
+        got.update({('v', i): np.asarray(sol.get_voltage(i)[1])[last] for i in ids})
+        got.update({('i', i): np.asarray(sol.get_current(i)[1])[last] for i in ids})
+        ref = {('pot', l): np.asarray(td.get_potential(l)(tl), dtype=float) for l in labels}
+        ref.update({('v', i): np.asarray(td.get_voltage(i)(tl), dtype=float) for i in ids})
+        ref.update({('i', i): np.asarray(td.get_current(i)(tl), dtype=float) for i in ids})
+    except Exception as e:
+        out.spec_fail(pcanon('raises', exc=gs.gen_tag(e)), f'periodic steady state: {type(e).__name__}: {e}', inp, desc=d, periodic_base=desc)
+        return
+    scale = max(1.0, max(float(np.max(np.abs(v))) for v in ref.values()))
+    tol = (2e-3 + (w_max * h) ** 2) * scale
+    for key in ref:
+        dev = float(np.max(np.abs(got[key] - ref[key])))
+        if not dev <= tol:
+            what = {'pot': 'potential of node', 'v': 'voltage of', 'i': 'current of'}[key[0]]
+            out.spec_fail(pcanon('periodic_steady_state', output=key[0]),
+                          f'{what} {key[1]!r}: after the transient has decayed the simulated last period differs from the '
+                          f'multi-frequency steady state (TimeDomainSolution, frequencies {ws.tolist()}) by {dev:.4g} '
+                          f'(tolerance {tol:.3g}, source {pick!r} is {kind} with w = {w0}, phase {phi:.4g})', inp, desc=d, periodic_base=desc)
+            return
+    out.count('periodic_steady_checked')
+
 CORPUS = c10.CORPUS + [
     # an AC current source (w ≠ 0) is an open circuit at w = 0: the model has no input for it
     dict(ground='0', ground_pos=3, comps=[
@@ -347,6 +495,11 @@ def run(ctx, out):
         check_case(ctx, out, desc, 'corpus')
     for desc in c10.SI_CORPUS:
         check_case(ctx, out, desc, 'si_corpus')
+    for g in ('int64', 'float32'):
+        check_case(ctx, out, dict(c10.CORPUS[0], grid=g), 'typed_grid')
+        check_case(ctx, out, dict(c10.CORPUS[5], grid=g), 'typed_grid')
+    periodic_case(ctx, out, c10.CORPUS[0]); periodic_case(ctx, out, c10.CORPUS[5])
+    n_periodic = 0
     rng = ctx.rng('random')
     n_random = 110 if ctx.quick else 1800
     reserve = 8 if ctx.quick else 60
@@ -359,6 +512,17 @@ def run(ctx, out):
             if ok: break
             out.count('rejected_degenerate:' + why)
         check_case(ctx, out, desc)
+        # periodic steady state against TimeDomainSolution (C09): a handful of damped circuits per run
+        if n_periodic < (10 if ctx.quick else 150) and gs.facts(desc)['n_reactive'] <= 3:
+            before = out.distribution.get('periodic_steady_checked', 0) + len(out.spec_failures)
+            periodic_case(ctx, out, desc)
+            n_periodic += (out.distribution.get('periodic_steady_checked', 0) + len(out.spec_failures)) > before
+        # typed time grids: integer (np.arange(0, n)) and float32 time vectors; source kinds: ideal ac / periodic sources
+        if rng.random() < (0.3 if ctx.quick else 1.0):
+            check_case(ctx, out, dict(desc, grid=rng.choice(['int64', 'float32'])), 'typed_grid')
+        if rng.random() < (0.25 if ctx.quick else 1.0):
+            check_case(ctx, out, gs.with_source_kinds(rng, desc, lossy=False), 'source_kinds')
+            out.count('source_kind_cases')
         # unit-scale stream: the same circuit in realistic SI units
         if rng.random() < (0.3 if ctx.quick else 1.0):
             gs.run_sequence(out, EXTRA_CANON, [desc, gs.si_desc(rng, desc, exact=True), gs.si_desc(rng, desc, exact=False)],
@@ -381,6 +545,9 @@ def run(ctx, out):
 def replay(ctx, out, rp):
     if rp.get('sequence'):
         gs.run_sequence(out, EXTRA_CANON, rp['sequence'], lambda d: check_case(ctx, out, d, 'replay'))
+        return
+    if rp.get('periodic_base'):
+        periodic_case(ctx, out, rp['periodic_base'], 'replay')
         return
     desc = rp.get('desc')
     if desc is None:
